@@ -520,3 +520,18 @@ func c21Extra(r *Run) error {
 	r.writersUnderContract("C21/token-expires-writers", r.structField(tk, "Token", "Expires"))
 	return nil
 }
+
+// c23Extra: codes and refresh tokens enter their caches only where they are issued (under a freshly generated
+// key), and leave only through the consume operations; tokens are minted only by the three grant handlers.
+func c23Extra(r *Run) error {
+	as := modInternal + "server/oauth/authserver"
+	cp := modInternal + "caches"
+	r.census("C23/code-issue-census", cp+".Add", 0, "OAuthCodeCache", as+".storeCode")
+	r.census("C23/refresh-token-issue-census", cp+".Add", 0, "OAuthRefreshCache", as+".generateRefreshToken")
+	r.census("C23/code-lookup-census", cp+".Find", 0, "OAuthCodeCache", as+".consumeCode")
+	r.census("C23/refresh-token-lookup-census", cp+".Find", 0, "OAuthRefreshCache", as+".consumeRefreshToken")
+	r.census("C23/consume-code-census", as+".consumeCode", 0, "", as+".handleAuthorizationCodeGrant")
+	r.census("C23/consume-refresh-token-census", as+".consumeRefreshToken", 0, "", as+".handleRefreshTokenGrant", as+".RevokeHandler")
+	r.census("C23/access-token-mint-census", as+".createAccessToken", 0, "", as+".handleAuthorizationCodeGrant", as+".handleRefreshTokenGrant", as+".handleClientCredentialsGrant")
+	return nil
+}
